@@ -52,10 +52,15 @@ def where_of(e: BaseException) -> str:
     return "?"
 
 
-def focus_opts(focus: str, ch: Choices, known: dict) -> dict:
+def focus_opts(focus: str, ch: Choices, known: dict, params: dict) -> dict:
     o = {"gcc_zero_cap": not known.get("gcc_zero_cap_excluded", False)}
     if focus == "C10":
         o["force_cons"] = 1
+    if params.get("types"):
+        o["types"] = params["types"].split(",") if isinstance(params["types"], str) else list(params["types"])
+        o["flavour_weights"] = [1, 0, 0]
+    if params.get("allow_known"):
+        o["gcc_zero_cap"] = True
     if focus == "C16":
         o["max_arity"] = 6
         o["max_vars"] = 8
@@ -68,9 +73,10 @@ def run(ch: Choices, focus: str = "C01", params: Optional[dict] = None) -> dict:
     seams.install()
     CLOCK.install()
     out = {"violations": [], "probes": Counter(), "faults": Counter(), "steps": 0, "nontrivial": False}
-    opts = focus_opts(focus, ch, known)
+    opts = focus_opts(focus, ch, known, params)
     model = gen.gen_model(ch, opts)
     out["model"] = gen.render_model(model)
+    out["model_dict"] = {k: model[k] for k in ("shr", "idx", "off", "props")}
     space = R.space_size(model["shr"])
     ref = sorted(R.solutions(model))
     out["ref_solutions"] = len(ref)
@@ -78,18 +84,22 @@ def run(ch: Choices, focus: str = "C01", params: Optional[dict] = None) -> dict:
     configs = []
     h = []
     for ci in range(nconf):
-        if ci == 0 and not ch.chance(1, 2, "cfg0.random"):
-            cfg = dict(gen.DEFAULT_CONFIG)
-            if opts.get("force_cons") is not None:
-                cfg["cons"] = opts["force_cons"]
-        else:
-            cfg = gen.gen_config(ch, model)
-            if opts.get("force_cons") is not None and ch.chance(3, 4, "cfg.forcecons"):
-                cfg["cons"] = opts["force_cons"]
-        pm, order = (gen.permute_props(ch, model) if ch.chance(1, 2, "permute") else (model, list(range(len(model["props"])))))
-        mode = pick_mode(ch, focus, model)
-        policy = pick_policy(ch, focus)
-        res = run_one(ch, focus, pm, cfg, mode, policy, ref, out)
+        with ch.scope(f"k{ci}"):
+            if ci == 0 and not ch.chance(1, 2, "cfg0.random"):
+                cfg = dict(gen.DEFAULT_CONFIG)
+                if opts.get("force_cons") is not None:
+                    cfg["cons"] = opts["force_cons"]
+            else:
+                cfg = gen.gen_config(ch, model)
+                if opts.get("force_cons") is not None and ch.chance(3, 4, "cfg.forcecons"):
+                    cfg["cons"] = opts["force_cons"]
+            if ch.chance(1, 2, "permute"):
+                pm, order = gen.permute_props(ch, model)
+            else:
+                pm, order = model, list(range(len(model["props"])))
+            mode = pick_mode(ch, focus, model)
+            policy = pick_policy(ch, focus)
+            res = run_one(ch, focus, pm, cfg, mode, policy, ref, out)
         configs.append({"cfg": [cfg["cons"], cfg["var_h"], cfg["dom_h"]], "order": order, "mode": mode, "policy": policy})
         h.append(res)
         if out["violations"]:
